@@ -16,8 +16,10 @@ Four streams on the real code, against a real temp directory:
             of a new controller / of a stored one with other permissions, another key, another
             spelling of the identifier, remove-pairing, removal of the only admin, pair-verify
             back-fill of identifier bytes on a file written without them, config_changed,
-            async_start's accessories-hash update); no wrappers, nothing calls persist; loop and
-            default executor drain, then the file must equal the in-memory state.
+            async_start's accessories-hash update, requests served while async_stop is in
+            progress); no wrappers, nothing calls persist; three pool schedules (free / the worker
+            runs the job before the submitter's next statement / jobs start when the loop is idle);
+            loop and default executor drain, then the file must equal the in-memory state.
 Oracle (independent of the model; harness/ref/statefile.py): after a failed or killed save the
 file is a complete loadable copy of the previous or the new state, a handled failure leaves no
 temp file; at quiescence the file equals the in-memory identity + pairings.
@@ -27,6 +29,7 @@ the Lean step relation (locked = the repaired code) and the predicted directory 
 from __future__ import annotations
 
 import asyncio
+import builtins
 import errno
 import json
 import logging
@@ -57,10 +60,14 @@ TRUSTED = [
     "survive process death, not machine death), POSIX semantics of os.replace (atomic within a directory; "
     "non-POSIX rename semantics are not covered), tempfile returning a fresh name, os.replace/os.remove "
     "failing without effect",
-    "model hypothesis 'every state-changing public operation schedules a save after it' (label `mutate` = change + "
-    "job; the hypothesis under which C15_converge speaks about the real system): not a theorem, tied by the "
-    "`public` stream, which drives each such operation through the real handler / driver method and judges the "
-    "file at quiescence",
+    "model hypothesis 'every state-changing public operation changes the state first and submits a save after "
+    "it' (label `mutate` = change, then job; C15_converge_after_save needs exactly this order, "
+    "C15_save_before_change_counterexample shows the opposite order fails): not a theorem about the code. It is "
+    "tied by the `public` stream, which drives every save-scheduling site (pair, unpair, pair-verify's "
+    "identifier back-fill on a legacy file, config_changed, async_start, also while async_stop is in progress) "
+    "through the real handler / driver method under three pool schedules (as it comes / the worker runs the job "
+    "before the submitting thread's next statement / jobs start when the loop is idle) and judges the file at "
+    "quiescence; the sites found in the source by an AST walk and the sites driven are listed in the evidence notes",
     "harness/ref/statefile.py (independent reader of the state file), harness/ref/c14_pairverify.py and tlv8.py "
     "(reference controller for the handler requests), the wrappers/scheduler of this module",
 ]
@@ -156,6 +163,7 @@ class Hooks:
         self.loglock = threading.Lock()
         self.state_mutex = threading.Lock()  # orders state reads of jobs against harness mutations
         self.sink = None  # optional fd: events are also written there (crash children)
+        self.mark = None  # crash children: how many line events have happened so far
         self._orig: Dict[str, Any] = {}
 
     # -- job context
@@ -170,6 +178,8 @@ class Hooks:
             self.log.append((j, point, outcome))
         if self.sink is not None:
             os.write(self.sink, f"{j} {point} {outcome}\n".encode())
+            if outcome == "fault" and self.mark is not None:
+                os.write(self.sink, f"mark {self.mark()}\n".encode())
 
     def release_state(self):
         if getattr(self.tls, "holds", False):
@@ -221,6 +231,27 @@ class Hooks:
         self.after("replace")
         return r
 
+    def _rename(self, src, dst, *a, **kw):
+        # shutil.move and hand-written installs use os.rename: the same step as os.replace
+        if not self._mine(dst):
+            return self._orig["rename"](src, dst, *a, **kw)
+        self.ev("replace")
+        r = self._orig["rename"](src, dst, *a, **kw)
+        self.after("replace")
+        return r
+
+    def _open(self, file, mode="r", *a, **kw):
+        # a save that opens a file in our directory for writing by itself (not through tempfile):
+        # not a step of the modelled program, but a place where an I/O error can strike
+        if isinstance(mode, str) and any(c in mode for c in "wax+") and self._mine(file):
+            self.ev("open")
+        return self._orig["open"](file, mode, *a, **kw)
+
+    def _sendfile(self, *a, **kw):
+        if self.job() is not None:
+            self.ev("sendfile")
+        return self._orig["sendfile"](*a, **kw)
+
     def _remove(self, path, *a, **kw):
         if self._mine(path):
             self.ev("remove")
@@ -264,7 +295,14 @@ class Hooks:
             "remove": os.remove,
             "unlink": os.unlink,
             "exists": os.path.exists,
+            "rename": os.rename,
+            "open": builtins.open,
+            "sendfile": getattr(os, "sendfile", None),
         }
+        os.rename = self._rename
+        builtins.open = self._open
+        if self._orig["sendfile"] is not None:
+            os.sendfile = self._sendfile
         tempfile.NamedTemporaryFile = self._ntf
         os.replace = self._replace
         os.remove = self._remove
@@ -279,6 +317,10 @@ class Hooks:
         os.remove = self._orig["remove"]
         os.unlink = self._orig["unlink"]
         os.path.exists = self._orig["exists"]
+        os.rename = self._orig["rename"]
+        builtins.open = self._orig["open"]
+        if self._orig["sendfile"] is not None:
+            os.sendfile = self._orig["sendfile"]
         self._orig = {}
 
     def __enter__(self):
@@ -768,15 +810,19 @@ def _crash_child(rig: Rig, k: int, wfd: int):
             return None
 
         rig.hooks.sink = wfd
+        rig.hooks.mark = lambda: cnt[0]
         rig.hooks.install()
         rig.hooks.set_job(0)
         os.write(wfd, b"0 spawn ok\n")
         sys.settrace(tracer)
+        outcome = "ok"
         try:
             rig.driver.persist()
+        except Exception:  # noqa: BLE001  a handled failure (injected fault): the save raised
+            outcome = "raised"
         finally:
             sys.settrace(None)
-        os.write(wfd, f"0 end ok\nlines {cnt[0]}\n".encode())
+        os.write(wfd, f"0 end {outcome}\nlines {cnt[0]}\n".encode())
         os._exit(7)
     except BaseException as ex:  # noqa: BLE001
         try:
@@ -788,7 +834,7 @@ def _crash_child(rig: Rig, k: int, wfd: int):
 def crash_scenario(ctx: Ctx, scn: dict, model_cases: list, only_k: Optional[int] = None, verbose=False):
     """prev on disk (or nothing), `new` in memory, one save killed at line event k, for every k."""
     st = ctx.stats
-    ctl = Ctl()
+    ctl = Ctl(faults=[(0, *f) for f in scn.get("faults", [])])
     rig = Rig(ctl, scn["initial"], with_loop=False, write_initial=scn["prev_on_disk"])
     rig.deep = bool(scn.get("deep"))
     try:
@@ -807,6 +853,10 @@ def crash_scenario(ctx: Ctx, scn: dict, model_cases: list, only_k: Optional[int]
         stride = 1 if only_k else int(scn.get("stride", 1))
         k = only_k or int(scn.get("offset", 1))
         total = None
+        probing = bool(scn.get("faults")) and not only_k  # first an unkilled run: where does the fault strike?
+        if probing:
+            k = 10 ** 9
+        mark = None
         while True:
             d = tempfile.mkdtemp(prefix="c15k-")
             path = os.path.join(d, STATE_FILE)
@@ -843,21 +893,29 @@ def crash_scenario(ctx: Ctx, scn: dict, model_cases: list, only_k: Optional[int]
                 parts = ln.split()
                 if parts[0] == "lines":
                     total = int(parts[1])
+                elif parts[0] == "mark":
+                    mark = int(parts[1]) if mark is None else mark
                 else:
                     rlog.append((int(parts[0]), parts[1], parts[2]))
             crashed = code == 0
-            allowed = [("previous", prev), ("new", new)] if crashed else [("new", new)]
+            faulted = any(e[2] == "fault" for e in rlog)
+            allowed = [("previous", prev), ("new", new)] if (crashed or faulted) else [("new", new)]
             which, why = judge_file(path, allowed)
             target = rig.read_target()
             temps = rig.temps()
             replay = {"kind": "crash", "scenario": scn, "k": k}
             if which is None:
-                sig = "C15:crash-leaves-incomplete-state-file" if crashed else "C15:save-does-not-store-new-state"
+                sig = (
+                    "C15:crash-leaves-incomplete-state-file" if crashed
+                    else "C15:failed-save-leaves-incomplete-state-file" if faulted
+                    else "C15:save-does-not-store-new-state"
+                )
+                pre = f"with injected faults {scn['faults']}, " if scn.get("faults") else ""
                 ctx.fail(
                     sig,
-                    f"process killed at source-line event {k} of the save: {why}"
+                    pre + (f"process killed at source-line event {k} of the save: {why}"
                     if crashed
-                    else f"a save that returned normally left a file that is not the new state: {why}",
+                    else f"a save that {'failed' if faulted else 'returned normally'} left a file that is not the {'previous or the ' if faulted else ''}new state: {why}"),
                     replay,
                 )
             st.hit("op", "crash-point")
@@ -876,6 +934,12 @@ def crash_scenario(ctx: Ctx, scn: dict, model_cases: list, only_k: Optional[int]
                     {"stream": "crash", "scenario": scn["name"], "killed_at_line_event": k, "last_io_calls_before_death": [e[1] for e in rlog if e[1] in POINTS][-4:], "file_is": which, "stray_temps": len(temps)}
                 )
             shutil.rmtree(d, ignore_errors=True)
+            if probing:
+                probing = False
+                if mark is None:  # the fault never struck: nothing to enumerate
+                    break
+                k = mark + 1  # every kill point after the failed call, up to the end of the save
+                continue
             if only_k or not crashed:
                 break
             k += stride
@@ -896,6 +960,10 @@ def crash_scenarios(ctx: Ctx) -> List[dict]:
     out.append({"name": "first-save-no-file", "initial": i0, "ops": ops, "prev_on_disk": False})
     # the same save with every Python frame under it traced (stdlib included): all points in the thorough
     # tier, every 7th (seeded offset) in the quick tier
+    # fault pair (failing call, kill): the install call fails, then the process is killed at every later
+    # line of any Python frame of that save (a fallback path taken only after the failure lives there)
+    for p in ("replace", "close"):
+        out.append(dict(out[0], name=f"{p}-fails-then-killed", deep=True, faults=[[p, 1]]))
     if ctx.quick:
         out.append(dict(out[0], name="add-second-controller-every-python-frame", deep=True, stride=7, offset=rng.randrange(1, 8)))
     else:
@@ -965,6 +1033,7 @@ def fault_case(ctx: Ctx, scn: dict, saves: List[List[list]], model_cases: list, 
                 if verbose:
                     print(f"save {i}: faults fired {[(p, n) for _, p, n in fired]} -> {'raised ' + type(r).__name__ if raised else 'returned'}; file={which or 'BROKEN: ' + why}; temps={len(temps)}")
         st.case(["fault", scn["name"], saves], bool(ctl.fired))
+        ctx.last_fault_log = list(rig.hooks.log)
         labels, names = translate(rig.hooks.log)
         mc = model_case(rig.init_text, rig.chunks, labels, names)
         mc.update(stream="fault", case={"scenario": scn["name"], "saves": saves}, target=rig.read_target(), temps=rig.temps(), crash=False)
@@ -1005,6 +1074,25 @@ def fault_stream(ctx: Ctx, model_cases: list):
             fault_case(ctx, scn, [[[p, 1, "rt"]]], model_cases)
         for n in sorted({1, 2, max(per_point["write"] // 2, 1), max(per_point["write"], 1)}):
             fault_case(ctx, scn, [[["write", n, "rt"]]], model_cases)
+        # fault pairs, adaptively: a first fault, then a second one at each wrapped call the save still makes
+        # afterwards (whatever path it takes then: cleanup, or a fallback way of installing the file)
+        for first in (["mktemp", 1], ["snapshot", 1], ["write", 1], ["close", 1], ["replace", 1]):
+            ctx.last_fault_log = []
+            fault_case(ctx, scn, [[first]], model_cases)
+            seen: Dict[str, int] = {}
+            followers = []
+            struck = False
+            for j, pt, oc in ctx.last_fault_log:
+                if j != 0 or pt in ("begin", "end", "spawn", "mutate"):
+                    continue
+                seen[pt] = seen.get(pt, 0) + 1
+                if struck:
+                    followers.append([pt, seen[pt]])
+                elif oc == "fault":
+                    struck = True
+            for second in followers[:12]:
+                fault_case(ctx, scn, [[first, second]], model_cases)
+                st.hit("op", "fault-pair")
         # a fault that provokes the cleanup, combined with a fault in the cleanup itself
         for p in ("snapshot", "write", "close", "replace"):
             for c in CLEANUP_POINTS:
@@ -1273,7 +1361,11 @@ class _FakeAdvertiser:
     async def async_update_service(self, info):
         return None
 
+    gate = None  # an asyncio.Event while a shutdown is held in its mDNS goodbye
+
     async def async_unregister_service(self, info):
+        if self.gate is not None:
+            await self.gate.wait()
         return None
 
     async def async_close(self):
@@ -1315,9 +1407,40 @@ class PublicRig:
         self.futs: List[Any] = []
         orig = self.loop.run_in_executor
 
+        # how the pool treats a job handed to it (all three are legal schedules of a thread pool):
+        #   free  - as it comes;  eager - the worker runs the whole job before the submitting (loop) thread
+        #   executes its next statement;  late - the job starts only when the loop has gone idle
+        self.mode = scn.get("executor", "free")
+        self.release = threading.Event()
+        self.sites: set = set()
+        self.stuck = False
+
         def run_in_executor(executor, fn, *args):
             self.submitted += 1
-            f = orig(executor, fn, *args)
+            self._note_site(sys._getframe(1))
+            if self.mode == "eager":
+                done = threading.Event()
+
+                def job():
+                    try:
+                        return fn(*args)
+                    finally:
+                        done.set()
+
+                f = orig(executor, job)
+                self.futs.append(f)
+                if not done.wait(HANG_S):
+                    self.stuck = True
+                return f
+            if self.mode == "late":
+
+                def job():
+                    self.release.wait(HANG_S)
+                    return fn(*args)
+
+                f = orig(executor, job)
+            else:
+                f = orig(executor, fn, *args)
             self.futs.append(f)
             return f
 
@@ -1326,9 +1449,11 @@ class PublicRig:
         from concurrent.futures import ThreadPoolExecutor
 
         self.helper = ThreadPoolExecutor(2)
+        self.adv = _FakeAdvertiser()
+        self.stop_task = None
         self.driver = ad.AccessoryDriver(
             loop=self.loop, persist_file=self.path, address="127.0.0.1", port=51826, mac="AA:BB:CC:DD:EE:FF",
-            pincode=b"031-45-154", async_zeroconf_instance=_FakeAdvertiser(),
+            pincode=b"031-45-154", async_zeroconf_instance=self.adv,
         )
         self.driver.http_server = _StubServer()
         self.driver.add_accessory(Accessory(self.driver, "Lamp"))  # loads the file, or stores a first one
@@ -1411,6 +1536,40 @@ class PublicRig:
             return "called"
         raise ValueError(k)
 
+    def _note_site(self, frame):
+        """Which function of the code under check asked for this background save."""
+        pdir = _pyhap_dir()
+        while frame is not None:
+            co = frame.f_code
+            if co.co_filename.startswith(pdir) and co.co_name not in ("async_persist", "persist"):
+                self.sites.add(f"{os.path.basename(co.co_filename)}:{co.co_name}")
+                return
+            frame = frame.f_back
+
+    async def do_async(self, op: dict) -> str:
+        k = op["op"]
+        if k == "start":
+            return await self.start()
+        if k == "stop_begin":  # async_stop() runs up to its mDNS goodbye and stays there
+            if self.stop_task is not None:
+                return "already-stopping"
+            if not self.started:
+                await self.start()
+            self.adv.gate = asyncio.Event()
+            self.stop_task = self.loop.create_task(self.driver.async_stop())
+            await asyncio.sleep(0)
+            await asyncio.sleep(0)
+            return "stopping"
+        if k == "stop_end":  # the goodbye is out: async_stop() runs to its end
+            if self.stop_task is None:
+                return "not-stopping"
+            self.adv.gate.set()
+            await asyncio.wait_for(self.stop_task, HANG_S)
+            self.stop_task = None
+            self.adv.gate = None
+            return "stopped"
+        return self.do(op)
+
     async def start(self):
         import contextlib
         import io
@@ -1424,6 +1583,15 @@ class PublicRig:
 
     async def quiesce(self):
         """Everything the code under check has scheduled has run: executor jobs, threads, callbacks."""
+        if self.stuck:
+            raise Hung("a background save did not finish")
+        self.release.set()
+        try:
+            await self._quiesce()
+        finally:
+            self.release.clear()
+
+    async def _quiesce(self):
         for _ in range(50):
             n = len(self.futs)
             if self.futs:
@@ -1481,7 +1649,7 @@ def public_case(ctx: Ctx, scn: dict, ops: List[dict], verbose=False, count=True)
             for i, op in enumerate(ops):
                 before = ref.canon_state(rig.state)
                 sub0, fid0 = rig.submitted, rig.file_id()
-                res = (await rig.start()) if op["op"] == "start" else rig.do(op)
+                res = await rig.do_async(op)
                 if op["op"] == "config_changed":
                     for t in list(rig.threads):  # its save is synchronous: wait for the call itself
                         await rig._rie(rig.helper, t.join, HANG_S)
@@ -1496,25 +1664,40 @@ def public_case(ctx: Ctx, scn: dict, ops: List[dict], verbose=False, count=True)
                     st.hit("op", "public:" + op["op"])
                 if op.get("settle"):
                     await rig.quiesce()
+            if rig.stop_task is not None:
+                trace.append({"op": "stop_end", "result": await rig.do_async({"op": "stop_end"})})
             await rig.quiesce()
             return last_change
 
         last_change = rig.loop.run_until_complete(go())
+        if count:
+            ctx.public_sites = getattr(ctx, "public_sites", set()) | rig.sites
+            if not scn.get("file"):
+                ctx.public_sites.add("accessory_driver.py:add_accessory")
+            if any(o["op"] == "config_changed" for o in ops):
+                ctx.public_sites.add("accessory_driver.py:config_changed")
         mem = ref.canon_state(rig.state)
         which, why = judge_file(rig.path, [("memory", mem)])
         if count:
-            st.hit("outcome", "public:file=" + ("memory" if which else "STALE"))
-            st.case(["public", scn, ops], any(t["state_changed"] for t in trace))
+            st.hit("outcome", f"public[{rig.mode}]:file=" + ("memory" if which else "STALE"))
+            st.case(["public", scn, ops], any(t.get("state_changed") for t in trace))
         if verbose:
             for t in trace:
                 print("  ", t)
             print("at quiescence:", "file == memory" if which else "STALE: " + why)
         if which is None:
             no_save = last_change is not None and not last_change[2]
-            sig = "C15:file-stale-at-quiescence:no-save-scheduled" if no_save else "C15:file-stale-after-interleaved-saves"
+            early = last_change is not None and last_change[2] and rig.mode == "eager"
+            sig = (
+                "C15:file-stale-at-quiescence:no-save-scheduled" if no_save
+                else "C15:file-stale-at-quiescence:save-scheduled-before-change" if early
+                else "C15:file-stale-after-interleaved-saves"
+            )
             desc = (
-                f"operations {[o['op'] for o in ops]} through the request handler / driver, loop and executor drained"
+                f"operations {[o['op'] for o in ops]} through the request handler / driver"
+                + (f" (pool schedule: {rig.mode})" if rig.mode != "free" else "") + ", loop and executor drained"
                 + (f"; operation {last_change[0]} ({last_change[1]}) changed the in-memory state and no save was scheduled for it" if no_save else "")
+                + (f"; operation {last_change[0]} ({last_change[1]}) handed its save to the pool, the worker ran it at once, and the state was changed only afterwards" if early else "")
                 + f": the state file is not the in-memory state: {why}"
             )
             if count:
@@ -1592,6 +1775,12 @@ def gen_public_ops(rng, initial: List[dict], n: int) -> List[dict]:
     return ops
 
 
+def gen_stop_window(rng, present_ops: List[dict]) -> List[dict]:
+    """A shutdown during which one or two more pairing requests are served (async_stop() is waiting for its
+    mDNS goodbye while the listening socket and the open sessions still work)."""
+    return [{"op": "stop_begin"}] + present_ops + [{"op": "stop_end"}]
+
+
 def public_cases(ctx: Ctx) -> List[Tuple[dict, List[dict]]]:
     rng = ctx.rng
     acc_seed = bytes(rng.getrandbits(8) for _ in range(32)).hex()
@@ -1622,6 +1811,14 @@ def public_cases(ctx: Ctx) -> List[Tuple[dict, List[dict]]]:
         (fresh, [{"op": "start"}]),
         (fresh, [setupA, {"op": "start"}, {"op": "config_changed"}, add(B)]),
     ]
+    # requests served while the driver is shutting down (between stop_event.set() and the end of async_stop)
+    rmC = {"op": "remove", "id": C["id"], "actor": dict(A)}
+    cases += [
+        (fresh, [setupA, dict(add(C), **S), dict({"op": "start"}, **S)] + gen_stop_window(rng, [rmC])),
+        (fresh, [setupA, dict(add(C), **S)] + gen_stop_window(rng, [{"op": "remove", "id": A["id"], "actor": dict(A)}])),
+        (fresh, [setupA, dict({"op": "start"}, **S)] + gen_stop_window(rng, [add(B), add(B, perm=0)])),
+        (fresh, [setupA] + gen_stop_window(rng, [{"op": "config_changed"}])),
+    ]
     for kind in ("legacy", "modern"):
         scn = {"name": kind + "-file", "file": kind, "accessory_seed": acc_seed, "initial": [A, C]}
         cases += [
@@ -1629,15 +1826,54 @@ def public_cases(ctx: Ctx) -> List[Tuple[dict, List[dict]]]:
             (scn, [{"op": "verify", "who": dict(A)}, {"op": "verify", "who": dict(C)}]),
             (scn, [add(B), add(C, perm=1)]),
             (scn, [{"op": "start"}]),
+            (scn, gen_stop_window(rng, [{"op": "verify", "who": dict(C)}])),
         ]
+    # every fixed sequence under each pool schedule: as it comes / the worker runs the job before the
+    # submitting thread's next statement / jobs start only once the loop is idle
+    cases = [(dict(scn, executor=m), ops) for scn, ops in cases for m in ("free", "eager", "late")]
     for n in range(ctx.n(30, 400)):
         if rng.random() < 0.3:
             init = [_mk_ctrl(rng, True)] + [_mk_ctrl(rng, rng.random() < 0.3) for _ in range(rng.randrange(0, 3))]
             scn = {"name": f"random-{n}", "file": rng.choice(["legacy", "modern"]), "accessory_seed": acc_seed, "initial": init}
         else:
             init, scn = [], {"name": f"random-{n}", "file": None}
-        cases.append((scn, gen_public_ops(rng, init, rng.randrange(2, 7))))
+        scn["executor"] = rng.choice(["free", "free", "eager", "late"])
+        ops = gen_public_ops(rng, init, rng.randrange(2, 7))
+        if rng.random() < 0.25:
+            k = rng.randrange(0, min(2, len(ops)) + 1)
+            tail = [o for o in ops[len(ops) - k:] if o["op"] not in ("start",)]
+            ops = ops[: len(ops) - k] + gen_stop_window(rng, [{kk: v for kk, v in o.items() if kk != "settle"} for o in tail])
+        cases.append((scn, ops))
     return cases
+
+
+def save_sites_in_source() -> List[str]:
+    """Functions of pyhap that ask for a save (call .persist() / .async_persist() on something that is
+    not the encoder), found by walking the syntax trees."""
+    import ast
+
+    out = set()
+    pdir = _pyhap_dir()
+    for name in sorted(os.listdir(pdir)):
+        if not name.endswith(".py"):
+            continue
+        try:
+            with open(os.path.join(pdir, name), "r", encoding="utf8") as fh:
+                tree = ast.parse(fh.read())
+        except (OSError, SyntaxError):
+            continue
+        for fn in ast.walk(tree):
+            if not isinstance(fn, (ast.FunctionDef, ast.AsyncFunctionDef)):
+                continue
+            for node in ast.walk(fn):
+                if (
+                    isinstance(node, ast.Call) and isinstance(node.func, ast.Attribute)
+                    and node.func.attr in ("persist", "async_persist")
+                    and not (isinstance(node.func.value, ast.Attribute) and node.func.value.attr == "encoder")
+                    and not (isinstance(node.func.value, ast.Name) and node.func.value.id == "encoder")
+                ):
+                    out.add(f"{name}:{fn.name}")
+    return sorted(out)
 
 
 def public_stream(ctx: Ctx):
@@ -1656,6 +1892,12 @@ def public_stream(ctx: Ctx):
         if ok and not sampled and len(ops) >= 3:
             sampled = True
             st.sample({"stream": "public", "scenario": scn["name"], "ops": [{k: (v if k != "actor" else v["id"][:8]) for k, v in o.items() if k != "seed"} for o in ops], "at_quiescence": "file == memory"}, limit=8)
+    src = save_sites_in_source()
+    seen = sorted(getattr(ctx, "public_sites", set()))
+    st.notes.append(
+        f"save-scheduling sites in the source: {src}; driven by the public stream in this run: {seen}; "
+        f"not driven: {sorted(set(src) - set(seen)) or 'none'}"
+    )
 
 
 # --------------------------------------------------------------------------- entry points
